@@ -10,7 +10,8 @@ if [ "$demo" != "-" ]; then
   (cd "$wt" && PYTHONPATH="$wt/src" JAX_PLATFORMS=cpu timeout 600 /venv/bin/python "$demo" >/dev/null 2>&1); echo "demo exit (mutated) = $?"
 fi
 for p in "$@"; do
-  out=$(cd /verif && FURAX_REPO="$wt" timeout 3000 ./check "$p" --tier quick 2>&1); rc=$?
+  mkdir -p /tmp/mutant-evidence /tmp/mutant-replays
+  out=$(cd /verif && VERIF_EVIDENCE_DIR=/tmp/mutant-evidence VERIF_REPLAYS_DIR=/tmp/mutant-replays FURAX_REPO="$wt" timeout 3000 ./check "$p" --tier quick 2>&1); rc=$?
   echo "check $p exit=$rc :: $(echo "$out" | grep -E '^VIOLATION|^KNOWN' | head -3 | tr '\n' ' ')"
   echo "$out" | grep -E "^$p quick" | cut -c1-300
   for r in $(echo "$out" | grep -oE 'replay=[^ ]+' | head -2 | cut -d= -f2); do
